@@ -553,7 +553,14 @@ def onObs (t : T) (x : Obs) : T :=
     match extra.head? with
     | some (tk, _, _, _) => t.flag .C16 s!"{tag}the poller holds a stale or unexpected registration {tk.id}.{tk.ver}.{tk.sub}"
     | none => t
-  | .panic p => t.flag .C08 s!"panic {repr p}"
+  | .panic p =>
+    let t := t.flag .C08 s!"panic {repr p}"
+    -- `unreachable!()` is what a hook walk hits on a lifecycle-set token that resolves to no source: the set held
+    -- an entry of a source that is gone
+    if p == .unreachable then
+      let t := t.flag .C14 "a lifecycle hook walk met a token of a source that is gone (unreachable!())"
+      t.flagIf (t.anyFailure && !t.f15) .C15 "after a failure the lifecycle set kept a token of a source that is gone (unreachable!())"
+    else t
   | .caseEnd => { t with ended := true }
   | .abort | .loopDropped => t
 
